@@ -435,6 +435,7 @@ class Comparison(Display):
         # service_dict["changed_parameters_of_service"][{0 = services, 1 = changed_parameters, 2 = information_texts}][i]
 
         dl1_service_names = [service.short_name for service in dl1.services]
+        dl2_service_names = [service.short_name for service in dl2.services]
 
         # extract the constant prefixes for the requests of all
         # services (used for duck-typed rename detection)
@@ -460,9 +461,8 @@ class Comparison(Display):
                     service_dict["new_services"].append(  # type: ignore[union-attr]
                         service1)  # type: ignore[arg-type]
 
-            # check whether names of diagnostic services have changed
-            elif service1 not in dl2.services:
-                if rq_prefix is None or rq_prefix in dl2_request_prefixes:
+                # check whether names of diagnostic services have changed
+                elif service1.short_name not in dl2_service_names:
                     # get related diagnostic service for request
                     service2_idx = dl2_request_prefixes.index(rq_prefix)
                     service2 = dl2.services[service2_idx]
